@@ -13,6 +13,7 @@ from fractions import Fraction
 from ..gen import mesh as G
 from ..gen import c18gen as GG
 from ..gen import c18translate as TR
+from ..gen import c18vtranslate as TRV
 
 PID = "C18"
 TITLE = "Surface frame fields are unit, border-aligned and topologically consistent"
@@ -26,6 +27,15 @@ REQUIRED_THEOREMS = [
     # proved negations / witnesses for the open findings
     "normalize_unit_fails_on_vanishing_entry", "odd_order_opposite_constraints_cancel", "odd_order_crease_constraint_vanishes",
     "multi_feature_face_constraint_depends_on_write_order", "guarded_constraint_depends_on_edge_order",
+    # round 2: vertex-based field, connection / operator formulas, bridges to Generated/C18Vertex.lean
+    "vertex_constraint_unit", "vertex_guard_keeps_sums_nonvanishing", "vertex_init_free_untouched", "feature_vertices_fixed", "vertex_constrained_untouched",
+    "vertex_matching_quantised", "vertex_face_index_quantised", "vertex_face_index_quantised_mesh",
+    "vertex_face_index_multiple_of_quantum", "vertex_face_holonomy_telescopes", "vertex_face_index_sum_telescopes",
+    "vertex_face_index_sum_closed",
+    "bridge_angle_diff", "bridge_roots", "bridge_vertex_candidates", "bridge_vertex_flag_structure", "bridge_curv_term",
+    "bridge_vertex_init", "bridge_connection_formulas", "bridge_vertex_thresholds",
+    "connection_interior_rescale", "connection_feature_ring_closes_on_quantum", "connection_face_transports_opposite",
+    "laplacian_vertex_phases_sum", "laplacian_faces_phase", "laplacian_phase_is_order_times_curv_term",
 ]
 TRUSTED = [
     "Lean 4.33.0 kernel; axioms ⊆ {propext, Classical.choice, Quot.sound}",
@@ -36,6 +46,13 @@ TRUSTED = [
     "correspondence of this run (the implementation's own per-edge transports, weights, phases, solver output are fed, "
     "rationalised exactly, to the model; assembled matrix, partition, constraint values, normalised field, edge rotations, "
     "vertex index sums are compared at 1e-9)",
+    "translator vlib/gen/c18vtranslate.py (round 2: python float expressions -> Lean Rat terms in turns, pi = 1/2): maths.angle_diff / roots, "
+    "vertex2d._initialize_variables (branch condition, feature normalisation threshold), vertex2d.flag_singularities (matching arguments, "
+    "signs of the stores, half-edge list, curvature term, threshold), connection.py (dfct, feature / interior rescaling, face transports), "
+    "laplacian / laplacian_triangles phases, parallel_transport_curvature -> Generated/C18Vertex.lean, bridged to the models in Props/C18.lean",
+    "hand-written model Mouette/Model/FrameFieldV.lean (vertex-based initialisation with normalisation, matching on edges, per-face holonomy + "
+    "curvature) tied to vertex2d.py by the INITV / IDXV sections of the correspondence (the harness supplies abs() of the accumulated sums, "
+    "the phases of the solved field and every directed transport of the connection)",
     "scipy.sparse.linalg.spsolve / factorized / eigsh and the inverse power iteration are NOT modelled (T7): their output is an "
     "input of the model, which computes the exact residual of the linear system; convergence is checked numerically per run",
     "floating point (T6): sqrt / atan2 / phase / cos / sin are evaluated by the implementation and the harness only",
@@ -64,6 +81,15 @@ def _consts():
         except Exception:  # noqa  (reported by translate() as a broken obligation)
             _CONST.update(thr=1e-3, a=2.0)
     return _CONST["thr"], _CONST["a"]
+
+
+def _vthr():
+    if "vthr" not in _CONST:
+        try:
+            _CONST["vthr"] = float(TRV.site_vertex_flag()["thr"])
+        except Exception:  # noqa  (reported by translate() as a broken obligation)
+            _CONST["vthr"] = 1e-2
+    return _CONST["vthr"]
 
 
 # ------------------------------------------------------------------------------------------------
@@ -294,6 +320,20 @@ def _impl_data(case, r):
                 contribs.append((int(A), cmath.rect(1, f.conn.transport(A, B))))
                 contribs.append((int(B), cmath.rect(1, f.conn.transport(B, A))))
         d["guarded"], d["contribs"] = guarded, contribs
+        # --- round 2: full vertex initialisation (with normalisation) and flag_singularities on faces
+        d["smooth"] = bool(f.smooth_normals)
+        acc = [0j] * n
+        for v, u in contribs:
+            sacc = acc[v] + u ** order
+            if (not guarded) or abs(sacc) > 1e-10: acc[v] = sacc
+        d["sum_abs"] = [abs(z) for z in acc]          # abs() of the accumulated sums: the square roots handed to the model
+        d["vtheta"] = [cmath.phase(complex(z)) / TWO_PI for z in r.var]
+        ts = []
+        for (A, B) in m.edges:
+            ts.append((int(A), int(B), f.conn.transport(A, B) / TWO_PI)); ts.append((int(B), int(A), f.conn.transport(B, A) / TWO_PI))
+        d["vts"] = ts
+        d["vedges"] = [(int(A), int(B)) for (A, B) in m.edges]
+        d["vfaces"] = [tuple(int(x) for x in fc) for fc in m.faces]
     # solve section
     if r.captured:
         pre = r.captured[-1]
@@ -366,6 +406,19 @@ def model_request(case):
         for a, b, T1, T2, a1, a2 in d["edges"]: t += [str(a), str(b), _opt(T1), _opt(T2), _fs(a1), _fs(a2)]
     else:
         t.append("0")
+    if not faces:
+        t += ["VX", "1" if d["smooth"] else "0"]
+        t.append(str(len(d["contribs"])))
+        for v, u in d["contribs"]: t += [str(v), _cs(u)]
+        t.append(str(len(d["featV"]))); t += [str(v) for v in d["featV"]]
+        t.append(str(d["n"])); t += [_fs(x) for x in d["sum_abs"]]
+        t.append(str(d["n"])); t += [_fs(x) for x in d["vtheta"]]
+        t.append(str(len(d["vts"])))
+        for u, v, x in d["vts"]: t += [str(u), str(v), _fs(x)]
+        t.append(str(len(d["vedges"])))
+        for a, b in d["vedges"]: t += [str(a), str(b)]
+        t.append(str(len(d["vfaces"])))
+        for a, b, c in d["vfaces"]: t += [str(a), str(b), str(c)]
     return " ".join(t)
 
 
@@ -435,9 +488,12 @@ def compare(case, model, impl):
         return "model rejected the request"
     d = r.data
     secs = [s.strip() for s in model.split(" | ")]
-    if len(secs) != 5:
-        return "model reply malformed"
     faces = case["elem"] == "faces"
+    if len(secs) != (5 if faces else 7):
+        return "model reply malformed"
+    if not faces:
+        why = _compare_vertex(case, r, d, secs[5], secs[6])
+        if why: return why
     order = case["order"]
     # ---- lap
     lap_s, herm_s = secs[0].split(" ; ")
@@ -540,6 +596,56 @@ def compare(case, model, impl):
                 return f"idx: vertex {v} flagged={flagged} but model angle {ang}"
             if flagged and abs(float(sg[v]) - ang * sca / math.pi) > 1e-9:
                 return f"idx: index of vertex {v}: implementation {float(sg[v])} model {ang * sca / math.pi}"
+    return None
+
+
+def _compare_vertex(case, r, d, initv_s, idxv_s):
+    """round 2: vertex-based INITV / IDXV sections"""
+    from mouette import attributes
+    order = case["order"]
+    minit, _ = _parse_cpx_list(initv_s.split()[1:])
+    for i, z in enumerate(minit):
+        if not _close(r.var_init[i], z, 1.0, 1e-8):
+            return f"initv: constraint of vertex {i}: implementation {complex(r.var_init[i])} model {z}"
+    parts = idxv_s[len("idxv "):].split(" ; ")
+    rots, _ = _parse_rat_list(parts[0].split())
+    curv, _ = _parse_rat_list(parts[1].split())
+    ang, _ = _parse_rat_list(parts[2].split())
+    nang, _ = _parse_rat_list(parts[3].split())
+    total, sc, bt, wf = _pr(parts[4]), _pr(parts[5]), _pr(parts[6]), parts[7].strip()
+    if wf != "1":
+        return "idxv: the edge list of the mesh is not well formed for the model (self loop / duplicate edge)"
+    if total != sc + bt:
+        return "idxv: model total of face angles differs from sum of curvatures + border term (telescoping broken)"
+    sides, und, border, bverts, chi = _topology(r.V, r.F)
+    if not border and bt != 0:
+        return "idxv: border term is not zero on a closed surface"
+    for F_, x in enumerate(nang):
+        if x.denominator != 1:
+            return f"idxv: order * angle of face {F_} is not an integer in the model: {x}"
+    er = r.m.edges.get_attribute("angles")
+    near_tie = set()
+    for ie, (a, b) in enumerate(d["vedges"]):
+        ir = -float(er[ie]); mr = float(rots[ie]) * TWO_PI          # the attribute stores -angles[i_angle]
+        if abs(ir - mr) > 1e-9:
+            q = (ir - mr) / (TWO_PI / order)
+            if abs(q - round(q)) < 1e-7 and abs(abs(ir) - abs(mr)) < 1e-7:
+                near_tie.add(a); near_tie.add(b)
+            else:
+                return f"idxv: rotation of edge {ie}: implementation {ir} model {mr}"
+    K = attributes.parallel_transport_curvature(r.m, r.f.conn, persistent=False)
+    sg = r.m.faces.get_attribute("singuls")
+    thr = _vthr()
+    for F_, fc in enumerate(d["vfaces"]):
+        dk = (float(K[F_]) / TWO_PI - float(curv[F_]))
+        if abs(dk - round(dk)) > 1e-9 or (abs(dk) > 1e-9 and abs(abs(float(curv[F_])) - 0.5) > 1e-6):
+            return f"idxv: curvature of face {F_}: implementation {float(K[F_])} model {float(curv[F_]) * TWO_PI}"
+        if any(v in near_tie for v in fc): continue
+        a = float(ang[F_]) * TWO_PI
+        if abs(abs(a) - thr) < 1e-9 or abs(dk) > 1e-9: continue
+        want = 1 if a > thr else (-1 if a < -thr else 0)
+        if int(sg[F_]) != want:
+            return f"idxv: face {F_} flagged {int(sg[F_])} but model angle {a}"
     return None
 
 
@@ -653,6 +759,33 @@ def oracle(case):
             out.append(_F(f"C18/faces/index/sum/{tagc}", "flagged indices do not add up to 4 * Euler characteristic",
                           f"sum {tot} chi {chi} (unflagged slack {slack:.2e})"))
         r.n_sing = sum(1 for v in flagged if v not in bverts)
+
+    # (3v) vertex-based field: one index per face. Not a clause of the statement (which speaks of the face-based indices);
+    # it is an identity of the construction (holonomy of the matched rotations + curvature of the same transports) and is
+    # checked on the implementation's own stored rotations: whole multiple of 2*pi/order, flag = sign.
+    if elem == "vertices":
+        from mouette import attributes
+        er = m.edges.get_attribute("angles")
+        Kc = attributes.parallel_transport_curvature(m, f.conn, persistent=False)
+        sg = m.faces.get_attribute("singuls")
+        rot = {}
+        for ie, (A, B) in enumerate(m.edges):
+            rot[(int(A), int(B))] = -float(er[ie]); rot[(int(B), int(A))] = float(er[ie])
+        vthr = _vthr()
+        nsing = 0
+        for fi, fc in enumerate(F):
+            ang = sum(rot[(fc[i], fc[(i + 1) % 3])] for i in range(3)) + float(Kc[fi])
+            kq = ang / (TWO_PI / order)
+            if abs(kq - round(kq)) > 1e-6:
+                out.append(_F(f"C18/vertices/index/not-multiple/{tagc}", "holonomy + curvature of a face is not a whole multiple of 2*pi/order",
+                              f"face {fi}: angle {ang} order {order}")); break
+            if abs(abs(ang) - vthr) < 1e-9: continue
+            want = 1 if ang > vthr else (-1 if ang < -vthr else 0)
+            if want: nsing += 1
+            if int(sg[fi]) != want:
+                out.append(_F(f"C18/vertices/index/flag-sign/{tagc}", "singularity flag of a face is not the sign of its holonomy + curvature",
+                              f"face {fi}: angle {ang} flag {int(sg[fi])}")); break
+        r.n_sing_v = nsing
 
     # (4)+(5) operator: Hermitian; flat connection -> scalar Laplacian; harmonic extension with n_smooth = 0
     from mouette import operators
@@ -879,6 +1012,7 @@ def classify(case, obs):
     if getattr(r, "flat_checked", False): ks.append("flat-connection-checked")
     if getattr(r, "n_against", 0): ks.append("constraint:edge-against-basis-direction")
     if case["elem"] == "faces" and getattr(r, "n_sing", 0): ks.append("interior-singularities-flagged")
+    if case["elem"] == "vertices" and getattr(r, "n_sing_v", 0): ks.append("face-singularities-flagged(vertex field)")
     if case["features"] and len(r.f.feat.feature_edges) > len(border): ks.append("crease-feature-edges")
     return ks
 
@@ -901,7 +1035,7 @@ def shrink(case, still):
 
 
 def translate():
-    return TR.run()
+    return TR.run() + TRV.run()
 
 
 MANIFEST = {
@@ -916,7 +1050,13 @@ MANIFEST = {
                    "give a tangent branch and the 4/order quantum for EVERY order on faces with one feature edge. ONLY CHECKED PER RUN "
                    "(oracle on the real code + exact residual computed by the model on the solver's output): that spsolve / inverse "
                    "power iteration return the harmonic extension, unit modulus of the actual solver output, index sum = 4*chi on the "
-                   "actual meshes, numbering / face-rotation independence (metamorphic run)."),
+                   "actual meshes, numbering / face-rotation independence (metamorphic run). Round 2 adds the VERTEX-based field: unit constraints "
+                   "at feature vertices after the guarded accumulation + normalisation, constrained vertices untouched by the solve and the final "
+                   "normalisation, order x (holonomy of the matched rotations around a face + curvature term) is an integer for every order and "
+                   "every mesh (no geometric hypothesis), the face angles telescope to the total curvature (+ border term) by induction over the "
+                   "edge and face lists; and bridge theorems from the source-shaped fragments of vertex2d.py / connection.py / laplacian_op.py / "
+                   "attr_faces.py / maths.py (rescaling 2*pi/sum-of-angles maps the ring to one turn, feature rings close on corners/order, the two "
+                   "Laplacian phases sum to -order turns, i.e. the transports are inverse unit numbers) to the models."),
     "level_note": ("Trusted: Lean kernel + propext/Classical.choice/Quot.sound; the ast translator for 4 constant sites; the hand-written "
                    "model, tied to the code by feeding it the implementation's own per-edge transports / weights / phases / solver output "
                    "and comparing assembled matrix, partition, constraints, normalised field, edge rotations and vertex sums at 1e-9; "
